@@ -6,12 +6,13 @@ logdir = sys.argv[1]
 rows = []
 # baseline: the checks as they were before any seeded change was looked at (verif commit f5b25c4)
 baseline = {}
-bf = os.path.join(logdir, 'oldqueue.log')
-if os.path.exists(bf):
-    for line in open(bf, errors='replace'):
-        mo = re.match(r'seed=(C\d\d-m\d) check=(\S+) rc=(\d+)', line)
-        if mo:
-            baseline.setdefault(mo.group(1), []).append({'check': mo.group(2), 'exit': int(mo.group(3)), 'detected': mo.group(3) == '1'})
+for bfn in ('oldqueue.log', 'r2queue.log'):
+    bf = os.path.join(logdir, bfn)
+    if os.path.exists(bf):
+        for line in open(bf, errors='replace'):
+            mo = re.match(r'seed=(C\d\d-(?:r2)?m\d) check=(\S+) rc=(\d+)', line)
+            if mo:
+                baseline.setdefault(mo.group(1), []).append({'check': mo.group(2), 'exit': int(mo.group(3)), 'detected': mo.group(3) == '1'})
 for d in sorted(glob.glob('/verif/seeded/*-m*')):
     name = os.path.basename(d); pid, m = name.split('-')
     readme = open(os.path.join(d, 'README.md')).read() if os.path.exists(os.path.join(d, 'README.md')) else ''
@@ -46,12 +47,12 @@ for d in sorted(glob.glob('/verif/seeded/*-m*')):
                       'meaning': 'applied to a scratch copy of /repo HEAD: go build ./... and go test ./... pass in both modules (786-test baseline included)'},
         'checks_run': [{'command': f'/verif/seedtest.sh seeded/{name}/patch.diff {c["check"]}', **c} for c in checks],
         'detected_by': sorted({c['check'] for c in checks if c['detected']}),
-        'baseline_before_strengthening': {'verif_commit': 'f5b25c4', 'runs': baseline.get(name, []),
+        'baseline_before_strengthening': {'verif_commit': 'eb71efd' if 'r2' in name else 'f5b25c4', 'runs': baseline.get(name, []),
                                           'detected_by': sorted({b['check'] for b in baseline.get(name, []) if b['detected']})},
     }
     json.dump(meta, open(os.path.join(d, 'meta.json'), 'w'), indent=1, ensure_ascii=False)
     rows.append(meta)
-print('| seed | change | suite | before (f5b25c4) | now, quick tier | first signature |')
+print('| seed | change | suite | before | now, quick tier | first signature |')
 print('|---|---|---|---|---|---|')
 for r in rows:
     det = ', '.join(r['detected_by']) or '**missed**'
